@@ -480,10 +480,10 @@ PARTS = [
          rule="exhaustive: all 8191 bit strings of length 0..12 in 10 container forms (+scalars for length 1), ~ and ~~"),
     Part("pairs", e_pairs, kind="enum", enum=enum_pairs, shards=1, exhaustive=True,
          rule="exhaustive: all pairs of words of length 0..5, 8 right-hand and 4 left-hand container forms"),
-    Part("slices", e_slice, s_slice, quick=1500, thorough=10000, shards=8, rule="non-trivial: word longer than 2"),
-    Part("trees", e_tree, s_tree, quick=1200, thorough=10000, shards=16, rule="non-trivial: >=2 concatenations and >=1 inversion"),
-    Part("reject", e_reject, s_reject, quick=500, thorough=3000, shards=4, rule="every rejected construction/operand class"),
+    Part("slices", e_slice, s_slice, quick=1500, thorough=50000, shards=8, rule="non-trivial: word longer than 2"),
+    Part("trees", e_tree, s_tree, quick=1200, thorough=50000, shards=16, rule="non-trivial: >=2 concatenations and >=1 inversion"),
+    Part("reject", e_reject, s_reject, quick=500, thorough=15000, shards=4, rule="every rejected construction/operand class"),
     Part("ctor_atheris", eval_text("binseq"), kind="custom", custom=lambda ctx, n: run_campaign(ctx, "binseq", n), quick=0, thorough=150000, shards=4,
          rule="coverage-guided (atheris/libFuzzer) campaigns on the str constructor: valid uint8 0/1 1-D data or ValueError/TypeError; thorough tier only"),
-    Part("compare", e_cmp, s_cmp(), quick=1500, thorough=10000, shards=8, rule="non-trivial: noise component present or electrical_signal threshold"),
+    Part("compare", e_cmp, s_cmp(), quick=1500, thorough=50000, shards=8, rule="non-trivial: noise component present or electrical_signal threshold"),
 ]
